@@ -21,6 +21,8 @@ fn strategy(ctx: &Ctx) -> BoxedStrategy<Case> {
         3 => vec(any::<u8>(), 8..=8),
         3 => vec(any::<u8>(), 8..=56),
         1 => vec(prop::sample::select(vec![0u8, 0xff, 0x80, 0x7f, 1]), 8..=16),
+        // bytes that are no valid UTF-8 on their own (continuation bytes, 0xF8..): keys are bytes, not text
+        1 => vec(prop_oneof![3 => 0x80u8..=0xBF, 1 => 0xF8u8..=0xFF], 8..=12),
     ];
     (key, gen::bytes(max)).prop_map(|(k, m)| Case { key: Bytes(k), msg: Bytes(m) }).boxed()
 }
@@ -50,6 +52,31 @@ fn prop(c: &Case, ctx: &Ctx) -> PResult {
     let key = &c.key.0;
     let msg = &c.msg.0;
     let padded = pad8(msg);
+    // A cipher is a function of its own key only. Immediately before it, on the same thread, another cipher is set up
+    // and used with a key that is close to this one: same bytes but the last / the first, same length with every high
+    // byte replaced by another high byte, the key cut to 8 bytes or extended.
+    {
+        let sel = fnv64(key) ^ msg.len() as u64;
+        let mut prev = key.clone();
+        match sel % 5 {
+            0 => *prev.last_mut().unwrap() ^= 0x01,
+            1 => prev[0] ^= 0x80,
+            2 => prev.iter_mut().for_each(|b| {
+                if *b >= 0x80 {
+                    *b ^= 0x01
+                } else {
+                    *b ^= 0x20
+                }
+            }),
+            3 => prev.truncate(8),
+            _ => prev.push(0x41),
+        }
+        if prev != *key {
+            let before = guard("Blowfish::new", || physis::blowfish::Blowfish::new(&prev))?;
+            let _ = guard("encrypt", || before.encrypt(msg))?;
+            ctx.class("preceded-by-a-cipher-with-a-similar-key");
+        }
+    }
     let fish = guard("Blowfish::new", || physis::blowfish::Blowfish::new(key))?;
     let enc = guard("encrypt", || fish.encrypt(msg))?;
     let enc = match enc {
